@@ -37,13 +37,16 @@ from sim import tree as _tree  # noqa: E402
 
 PROPERTY = "C20"
 DEFAULT_SEED = 20260926
-EVIDENCE = os.path.join(VERIF, "evidence", "C20.json")
-REPLAYS = os.path.join(VERIF, "replays")
+# VERIF_OUT redirects evidence and replay files (used by the sensitivity runner, which points the
+# simulator at scratch copies of the repository and must not clobber the registered evidence).
+_OUT = os.environ.get("VERIF_OUT") or VERIF
+EVIDENCE = os.path.join(_OUT, "evidence", "C20.json")
+REPLAYS = os.path.join(_OUT, "replays")
 KNOWN = os.path.join(VERIF, "known_findings.json")
 
 TIERS = {
     #            plans  faulty/plan  determinism plans  minimise budget  max groups minimised
-    "quick": dict(plans=100, faulty=4, det_plans=12, min_budget=90, min_groups=6, spine=False),
+    "quick": dict(plans=70, faulty=4, det_plans=12, min_budget=90, min_groups=6, spine=False),
     "thorough": dict(plans=1500, faulty=10, det_plans=128, min_budget=160, min_groups=12, spine=True),
 }
 
@@ -66,7 +69,7 @@ class Scratch:
 
 def make_context(jobs, scratch, hashseeds=_plan.HASHSEEDS):
     tree = _tree.Tree()
-    per = max(1, min(4, jobs // (2 * len(hashseeds)) or 1))
+    per = max(1, min(4, -(-jobs // len(hashseeds))))
     pool = _pool.SimPool(os.path.join(scratch.dir, "sim"), hashseeds, per_seed=per)
     builder = _oracle.Builder(os.path.join(scratch.dir, "build"), tree)
     return _check.Context(tree, pool, builder)
@@ -254,9 +257,16 @@ class Stats:
         self.handled_only_runs = 0
         self.unhandled_runs = 0
         self.loud_failures = 0
+        self.sweep_variants = 0
 
     def bump(self, d, k, n=1):
         d[k] = d.get(k, 0) + n
+
+
+def hash_spread(name):
+    import hashlib
+
+    return int(hashlib.sha256(str(name).encode()).hexdigest()[:8], 16)
 
 
 def fault_kind(f):
@@ -306,10 +316,48 @@ def run_campaign(tier, seed, jobs, only_runs=None):
         plans = [_plan.make_plan(tree, seed, i, tier) for i in range(cfg["plans"])]
         if cfg["spine"]:
             plans += _plan.spine(tree, seed)
+        else:
+            plans += _plan.singles(tree, seed)
+        plans += _plan.matrix_plans(tree, seed, tier)
+        plans += _plan.sweep_plans(tree, seed, tier)
         if only_runs:
             plans = [p for p in plans if str(p["run"]) in only_runs]
         records = [None] * len(plans)
         harness_errors = []
+
+        sweep_jobs = []
+
+        def account_faulty(frec, fplan):
+            with stats.lock:
+                stats.faulty += 1
+                for f in fplan["faults"]:
+                    stats.bump(stats.faults_planned, fault_kind(f))
+                if "base_git" in fplan:
+                    stats.bump(stats.faults_planned, "git:" + fplan["env"]["git"])
+                    stats.bump(stats.git_outcomes, fplan["env"]["git"])
+                for f in frec["sim"]["delivered"]:
+                    stats.bump(stats.faults_delivered, fault_kind(f))
+                for k, v in frec["sim"]["probes"].items():
+                    stats.bump(stats.probes, k, v)
+                if frec["sim"]["probes"].get("git_nonzero_exit"):
+                    stats.bump(stats.faults_delivered, "git:nonzero-exit(handled)")
+                if frec.get("escalated"):
+                    stats.escalated += 1
+                if frec.get("outcome"):
+                    stats.bump(stats.outcomes, frec["outcome"])
+                if frec["delivered_unhandled"]:
+                    stats.unhandled_runs += 1
+                elif frec["sim"]["delivered"] or frec["sim"]["probes"].get("git_nonzero_exit"):
+                    stats.handled_only_runs += 1
+                for f in frec["sim"]["delivered"]:
+                    if f["op"] == "write" and f.get("where") == "last_buffer":
+                        stats.bump(stats.probes, "write_fault_in_last_buffer")
+                    if f["op"] == "read":
+                        stats.bump(stats.probes, "read_fault_delivered")
+                    if f["op"] == "open" and f.get("errno") == "ENOENT":
+                        stats.bump(stats.probes, "missing_file_seen_by_tool")
+            if frec.get("harness_error"):
+                harness_errors.append(frec["harness_error"])
 
         def process(ix):
             plan = plans[ix]
@@ -348,39 +396,16 @@ def run_campaign(tier, seed, jobs, only_runs=None):
             if rec.get("harness_error"):
                 harness_errors.append(rec["harness_error"])
             if tres["status"] == 0 and not tres["hang"] and not rec["inconclusive"]:
-                for var in _plan.faulty_variants(plan, seed, cfg["faulty"]):
-                    fplan = _check.make_faulty(plan, var)
-                    frec = _check.evaluate_faulty(ctx, fplan, tres, tdata)
-                    frec["_case"] = fplan
-                    recs.append(frec)
-                    with stats.lock:
-                        stats.faulty += 1
-                        for f in fplan["faults"]:
-                            stats.bump(stats.faults_planned, fault_kind(f))
-                        if "base_git" in fplan:
-                            stats.bump(stats.faults_planned, "git:" + fplan["env"]["git"])
-                            stats.bump(stats.git_outcomes, fplan["env"]["git"])
-                        for f in frec["sim"]["delivered"]:
-                            stats.bump(stats.faults_delivered, fault_kind(f))
-                        for k, v in frec["sim"]["probes"].items():
-                            stats.bump(stats.probes, k, v)
-                        if frec["sim"]["probes"].get("git_nonzero_exit"):
-                            stats.bump(stats.faults_delivered, "git:nonzero-exit(handled)")
-                        if frec.get("escalated"):
-                            stats.escalated += 1
-                        if frec.get("outcome"):
-                            stats.bump(stats.outcomes, frec["outcome"])
-                        if frec["delivered_unhandled"]:
-                            stats.unhandled_runs += 1
-                        elif frec["sim"]["delivered"] or frec["sim"]["probes"].get("git_nonzero_exit"):
-                            stats.handled_only_runs += 1
-                        for f in frec["sim"]["delivered"]:
-                            if f["op"] == "write" and f.get("where") == "last_buffer":
-                                stats.bump(stats.probes, "write_fault_in_last_buffer")
-                            if f["op"] == "read":
-                                stats.bump(stats.probes, "read_fault_delivered")
-                    if frec.get("harness_error"):
-                        harness_errors.append(frec["harness_error"])
+                if str(plan["run"]).startswith("sweep-"):
+                    sweep_jobs.append((ix, plan, tres, tdata))
+                else:
+                    nf = cfg["faulty"] if isinstance(plan["run"], int) else 1
+                    for var in _plan.faulty_variants(plan, seed, nf):
+                        fplan = _check.make_faulty(plan, var)
+                        frec = _check.evaluate_faulty(ctx, fplan, tres, tdata)
+                        frec["_case"] = fplan
+                        recs.append(frec)
+                        account_faulty(frec, fplan)
             rec["_case"] = plan
             records[ix] = recs
             return ix
@@ -391,6 +416,24 @@ def run_campaign(tier, seed, jobs, only_runs=None):
                 done += 1
                 if done % 50 == 0:
                     say("  ... %d/%d plans (%.0f s)" % (done, len(plans), _perf() - t0))
+        # systematic fault sweep over the dedicated sweep plans
+        for ix, plan, tres, tdata in sorted(sweep_jobs, key=lambda j: j[0]):
+            variants = _plan.sweep_variants(plan, _env.footprint(tres), tier)
+            stats.sweep_variants += len(variants)
+
+            def one(var, plan=plan, tres=tres, tdata=tdata):
+                fplan = _check.make_faulty(plan, var)
+                # spread the sweep over all simulator workers (the hash seed is part of the case,
+                # so each variant still replays exactly)
+                fplan["hashseed"] = _plan.HASHSEEDS[hash_spread(var["variant"]) % len(_plan.HASHSEEDS)]
+                frec = _check.evaluate_faulty(ctx, fplan, tres, tdata)
+                frec["_case"] = fplan
+                account_faulty(frec, fplan)
+                return frec
+
+            with ThreadPoolExecutor(jobs) as ex:
+                records[ix].extend(ex.map(one, variants))
+            say("  sweep %s: %d fault variants over %d input files, %d output bytes, %d steps (%.0f s)" % (plan["run"], len(variants), len(tres["opened"]), tres["out_len"], tres["steps"], _perf() - t0))
         stats.sim_runs = ctx.pool.runs
 
         if harness_errors:
@@ -597,6 +640,7 @@ def write_evidence(tier, seed, t0, ctx, stats, cov, det, exitm, reported, known_
             "exhaustive": False,
             "fault_free_plans": stats.fault_free,
             "faulty_executions": stats.faulty,
+            "systematic_sweep_fault_variants": stats.sweep_variants,
             "runs_per_hour": int(runs / wall * 3600) if wall > 0 else 0,
             "builds": ctx.builder.n_builds,
             "build_cache_hits": ctx.builder.n_cache_hits,
